@@ -10,6 +10,7 @@ import (
 	"strconv"
 	"strings"
 	"sync"
+	"sync/atomic"
 	"testing"
 	"time"
 
@@ -67,6 +68,13 @@ type c01Target struct {
 	aliasIdx map[string]int // "original recipient" a failure report names instead (c01OriginalRcpts)
 	log      *[]string
 	rng      *vh.Rng
+
+	// restarts (C01 run ... R=): q is the queue instance that is running; holdBefore[k] = the
+	// server restarts before attempt k (0-based): attempt k-1 leaves the retry an hour away and
+	// says so in holds, the driver then stops the instance and starts another one on the spool
+	q          *Queue
+	holdBefore map[int]int
+	holds      int
 }
 
 type c01Delivery struct {
@@ -102,6 +110,19 @@ func (t *c01Target) lookupAddr(a string) (int, bool) {
 	if n > 1 {
 		return 0, false
 	}
+	// report of a message received without SMTPUTF8: domains as A-labels
+	for cand, i := range t.addrIdx {
+		if r, err := address.ToASCII(cand); err == nil && r == a {
+			n++
+			hit = i
+		}
+	}
+	if n == 1 {
+		return hit, true
+	}
+	if n > 1 {
+		return 0, false
+	}
 	k, _ := address.ForLookup(a)
 	for cand, i := range t.addrIdx {
 		ck, _ := address.ForLookup(cand)
@@ -113,35 +134,143 @@ func (t *c01Target) lookupAddr(a string) (int, bool) {
 	return hit, n == 1
 }
 
-// c01OriginalRcpts: a failure report names a recipient with its domain rendered as U-labels, so
-// "u@xn--e1afmkfd.example" and "u@пример.example" (two recipients) would read the same.  Recipients
-// whose renderings coincide get an "original recipient" (MsgMetadata.OriginalRcpts, what a rewriting
-// pipeline leaves behind): the report then names that one, which is unique.
-func c01OriginalRcpts(bt *c01Target, addrs map[int]string) map[string]string {
-	byRender := map[string][]int{}
-	for id, a := range addrs {
-		r, err := address.ToUnicode(a)
+// c01OriginalRcpts: a failure report names a recipient with its domain rendered as U-labels (as
+// A-labels when the message came without SMTPUTF8), so "u@xn--e1afmkfd.example" and
+// "u@пример.example" (two recipients) would read the same.  Recipients whose renderings coincide get
+// an "original recipient" (MsgMetadata.OriginalRcpts, what a rewriting pipeline leaves behind): the
+// report then names that one, which is unique.  forms (one letter per recipient of ids, '-' = none)
+// gives recipients an original address of a chosen shape whatever their rendering (c01OrigAddr).
+func c01OriginalRcpts(bt *c01Target, ids []int, addrs map[int]string, utf8 bool, forms string) map[string]string {
+	render := func(a string) string {
+		r, err := address.SelectIDNA(utf8, a)
 		if err != nil {
-			r = a
+			return a
 		}
-		byRender[r] = append(byRender[r], id)
+		return r
 	}
 	var orig map[string]string
-	for _, ids := range byRender {
-		if len(ids) < 2 {
+	set := func(id int, alias string) {
+		if orig == nil {
+			orig = map[string]string{}
+			bt.aliasIdx = map[string]int{}
+		}
+		orig[addrs[id]] = alias
+		bt.aliasIdx[alias] = id
+		if r, err := address.ToUnicode(alias); err == nil {
+			bt.aliasIdx[r] = id
+		}
+		if r, err := address.ToASCII(alias); err == nil {
+			bt.aliasIdx[r] = id
+		}
+	}
+	explicit := map[int]bool{}
+	for pos, id := range ids {
+		if pos < len(forms) && forms[pos] != '-' {
+			set(id, c01OrigAddr(forms[pos], id))
+			explicit[id] = true
+		}
+	}
+	byRender := map[string][]int{}
+	for id, a := range addrs {
+		byRender[render(a)] = append(byRender[render(a)], id)
+	}
+	for _, rids := range byRender {
+		if len(rids) < 2 {
 			continue
 		}
-		for _, id := range ids {
-			if orig == nil {
-				orig = map[string]string{}
-				bt.aliasIdx = map[string]int{}
+		for _, id := range rids {
+			if !explicit[id] {
+				set(id, fmt.Sprintf("orig%d@alias.example", id))
 			}
-			alias := fmt.Sprintf("orig%d@alias.example", id)
-			orig[addrs[id]] = alias
-			bt.aliasIdx[alias] = id
 		}
 	}
 	return orig
+}
+
+// c01OrigAddr: the address the client named, by shape: a ASCII, n non-ASCII local part, i IDN
+// domain written with U-labels, j the same with A-labels, m non-ASCII local part and IDN domain.
+func c01OrigAddr(form byte, id int) string {
+	switch form {
+	case 'a':
+		return fmt.Sprintf("orig%d@alias.example", id)
+	case 'n':
+		return fmt.Sprintf("ориг%d@alias.example", id)
+	case 'i':
+		return fmt.Sprintf("orig%d@пример.example", id)
+	case 'j':
+		return fmt.Sprintf("orig%d@xn--e1afmkfd.example", id)
+	case 'm':
+		return fmt.Sprintf("ориг%d@пример.example", id)
+	}
+	panic("C01 run: original recipient form " + string(form))
+}
+
+// c01Sender: return path of the message, by shape (letters as in c01OrigAddr).
+func c01Sender(form byte) string {
+	switch form {
+	case 'a':
+		return "sender@example.com"
+	case 'n':
+		return "отправитель@example.com"
+	case 'i':
+		return "sender@пример.example"
+	case 'j':
+		return "sender@xn--e1afmkfd.example"
+	case 'm':
+		return "отправитель@пример.example"
+	}
+	panic("C01 run: sender form " + string(form))
+}
+
+// c01Ext: the optional tokens of a C01 run line.
+//
+//	R=<k.k...|->   the server restarts before attempt k (0-based; 0 = between the acceptance of the
+//	               message and its first attempt: Commit is answered by a queue that is already
+//	               shutting down); a k named twice = an instance in between that delivers nothing
+//	E=<utf8><sender form><original-recipient form per recipient>   the message came with SMTPUTF8
+//	               (1) or without (0: then no address has a non-ASCII local part), shape of the
+//	               return path, shape of the address the client named for each recipient ('-' none)
+type c01Ext struct {
+	restarts map[int]int
+	utf8     bool
+	sender   byte
+	orig     string
+}
+
+func c01ParseExt(toks []string, rcpts []int) c01Ext {
+	e := c01Ext{restarts: map[int]int{}, utf8: true, sender: 'a', orig: strings.Repeat("-", len(rcpts))}
+	for _, tok := range toks {
+		switch {
+		case tok == "R=-":
+		case strings.HasPrefix(tok, "R="):
+			for _, f := range strings.Split(tok[2:], ".") {
+				k, err := strconv.Atoi(f)
+				if err != nil || k < 0 {
+					panic("C01 run: " + tok)
+				}
+				e.restarts[k]++
+			}
+		case strings.HasPrefix(tok, "E=") && len(tok) == 4+len(rcpts):
+			e.utf8 = tok[2] == '1'
+			e.sender = tok[3]
+			e.orig = tok[4:]
+		default:
+			panic("C01 run: " + tok)
+		}
+	}
+	if !e.utf8 {
+		// without SMTPUTF8 nobody can name a mailbox with a non-ASCII local part
+		bad := strings.ContainsAny(string(e.sender)+e.orig, "nm")
+		for _, r := range rcpts {
+			if b := (r-1)%6 + 1; b == 2 || b == 5 {
+				bad = true
+			}
+		}
+		if bad {
+			panic("C01 run: non-ASCII local part without SMTPUTF8")
+		}
+	}
+	return e
 }
 
 // c01HasSpellings: do two of the recipients spell one mailbox (equal under address.ForLookup)?
@@ -171,6 +300,15 @@ func (t *c01Target) Start(ctx context.Context, msgMeta *module.MsgMetadata, mail
 		p = t.plans[t.attempt]
 	} else {
 		p = c01Plan{start: 'o', body: 'o', commit: 'o'}
+	}
+	if t.q != nil {
+		// the history goes on with a restart: keep the queue from retrying on its own
+		if t.holdBefore[t.attempt+1] > 0 {
+			t.q.initialRetryTime = time.Hour
+			t.holds++
+		} else {
+			t.q.initialRetryTime = 0
+		}
 	}
 	t.attempt++
 	t.ev("start:" + cls(p.start))
@@ -379,6 +517,10 @@ func c01CheckForms(t *testing.T) {
 	}
 }
 
+// after a few stalls the tree under test is evidently broken: do not sit out the grace period in
+// every further case
+var c01Stalls int32
+
 func c01Run(out *vh.Out, op string, seed uint64) {
 	toks := strings.Fields(op)
 	maxTries, _ := strconv.Atoi(toks[2])
@@ -390,10 +532,11 @@ func c01Run(out *vh.Out, op string, seed uint64) {
 		rcpts = append(rcpts, v)
 	}
 	plans := c01ParsePlans(toks[6], rcpts)
+	ext := c01ParseExt(toks[7:], rcpts)
 	rng := vh.NewRng(seed)
 
 	var evlog []string
-	tgt := &c01Target{partial: partial, plans: plans, addrIdx: map[string]int{}, log: &evlog, rng: rng}
+	tgt := &c01Target{partial: partial, plans: plans, addrIdx: map[string]int{}, log: &evlog, rng: rng, holdBefore: ext.restarts}
 	var addrs []string
 	addrOf := map[int]string{}
 	for _, r := range rcpts {
@@ -405,7 +548,7 @@ func c01Run(out *vh.Out, op string, seed uint64) {
 		addrs = append(addrs, a)
 		addrOf[r] = a
 	}
-	origRcpts := c01OriginalRcpts(tgt, addrOf)
+	origRcpts := c01OriginalRcpts(tgt, rcpts, addrOf, ext.utf8, ext.orig)
 
 	dir, err := os.MkdirTemp("", "verif-c01-")
 	if err != nil {
@@ -413,28 +556,46 @@ func c01Run(out *vh.Out, op string, seed uint64) {
 	}
 	defer os.RemoveAll(dir)
 
-	mod, _ := NewQueue("", "queue", nil, nil)
-	q := mod.(*Queue)
-	q.initialRetryTime = 0
-	q.retryTimeScale = 1
-	q.postInitDelay = 0
-	q.maxTries = maxTries
-	q.location = dir
-	q.Target = tgt
-	q.hostname = "mx.example.org"
-	q.autogenMsgDomain = "example.org"
-	q.Log = log.Logger{Out: log.NopOutput{}}
-	q.dsnPipeline = &c01Bounce{t: tgt}
-	if err := q.start(1); err != nil {
-		panic(err)
+	// newQ starts a queue instance on the spool; idle: it delivers nothing before it is stopped
+	newQ := func(idle bool) *Queue {
+		mod, _ := NewQueue("", "queue", nil, nil)
+		q := mod.(*Queue)
+		q.initialRetryTime = 0
+		q.retryTimeScale = 1
+		q.postInitDelay = 0
+		if idle {
+			q.postInitDelay = time.Hour
+		}
+		q.maxTries = maxTries
+		q.location = dir
+		q.Target = tgt
+		q.hostname = "mx.example.org"
+		q.autogenMsgDomain = "example.org"
+		q.Log = log.Logger{Out: log.NopOutput{}}
+		q.dsnPipeline = &c01Bounce{t: tgt}
+		tgt.mu.Lock()
+		tgt.q = q
+		tgt.mu.Unlock()
+		if err := q.start(1); err != nil {
+			panic(err)
+		}
+		return q
 	}
+	// restart: n-1 instances that deliver nothing, then one that works
+	restart := func(n int) *Queue {
+		for k := 1; k < n; k++ {
+			newQ(true).Close()
+		}
+		return newQ(false)
+	}
+	q := newQ(false)
 
-	from := "sender@example.com"
+	from := c01Sender(ext.sender)
 	if !dsn {
 		from = ""
 	}
 	id, _ := module.GenerateMsgID()
-	meta := &module.MsgMetadata{ID: id, OriginalFrom: from, DontTraceSender: true, SMTPOpts: smtp.MailOptions{UTF8: true}, OriginalRcpts: origRcpts}
+	meta := &module.MsgMetadata{ID: id, OriginalFrom: from, DontTraceSender: true, SMTPOpts: smtp.MailOptions{UTF8: ext.utf8}, OriginalRcpts: origRcpts}
 	ctx := context.Background()
 	d, err := q.Start(ctx, meta, from)
 	if err != nil {
@@ -450,18 +611,114 @@ func c01Run(out *vh.Out, op string, seed uint64) {
 	if err := d.Body(ctx, hdr, buffer.MemoryBuffer{Slice: []byte("hello\r\n")}); err != nil {
 		panic(err)
 	}
+	if ext.restarts[0] > 0 {
+		// the server is shutting down while the transaction completes: Queue.Close has stopped the
+		// time wheel, Commit is still answered - nothing is dispatched, the message is in the spool
+		q.Close()
+	}
 	if err := d.Commit(ctx); err != nil {
-		panic(err)
+		if ext.restarts[0] == 0 {
+			panic(err)
+		}
+		// a stopping queue may refuse: the message was never acknowledged, nothing to judge
+		out.Corr(op, "commit-refused")
+		out.Note("a stopping queue refused Commit: " + err.Error())
+		return
+	}
+	if ext.restarts[0] > 0 {
+		q = restart(ext.restarts[0])
 	}
 
-	// run to quiescence: the spool entry is removed after the terminal attempt
-	deadline := time.Now().Add(20 * time.Second)
-	removed := false
-	for time.Now().Before(deadline) {
+	// run to quiescence: the spool entry is removed after the terminal attempt.  Queue.Close is a
+	// barrier (time wheel stopped, attempts in flight over), so "what is in the spool after Close" does
+	// not depend on timing; the grace period below only decides how long a queue that has nothing
+	// scheduled is watched before that question is asked.
+	spool := func() (names []string, pending bool) {
 		ents, _ := os.ReadDir(dir)
-		if len(ents) == 0 {
+		for _, e := range ents {
+			n := e.Name()
+			if i := strings.LastIndexByte(n, '.'); i >= 0 {
+				n = n[i:]
+			}
+			if strings.HasSuffix(e.Name(), ".meta.new") {
+				n = ".meta.new"
+			}
+			if n == ".meta" || n == ".meta.new" {
+				pending = true // something a queue instance is going to load
+			}
+			names = append(names, n)
+		}
+		sort.Strings(names)
+		return
+	}
+	deadline := time.Now().Add(30 * time.Second)
+	removed := false
+	handled := 0
+	var idleSince time.Time
+	lastAttempt := -1
+	for {
+		names, pending := spool()
+		if len(names) == 0 {
 			removed = true
 			break
+		}
+		tgt.mu.Lock()
+		holds, attempt := tgt.holds, tgt.attempt
+		tgt.mu.Unlock()
+		if holds > handled {
+			// the attempt before a planned restart has begun: let it finish, stop, start again
+			handled = holds
+			q.Close()
+			if names, _ = spool(); len(names) == 0 {
+				removed = true
+				break
+			}
+			q = restart(ext.restarts[attempt])
+			idleSince = time.Time{}
+			continue
+		}
+		// nothing scheduled and nothing in flight for a while, or nothing left that a queue instance
+		// would load: ask the question after the barrier
+		grace := 3 * time.Second
+		if atomic.LoadInt32(&c01Stalls) >= 3 {
+			grace = 300 * time.Millisecond
+		}
+		idle := c01WheelEmpty(q) && len(q.deliverySemaphore) == 0 && attempt == lastAttempt
+		lastAttempt = attempt
+		if !idle {
+			idleSince = time.Time{}
+		} else if idleSince.IsZero() {
+			idleSince = time.Now()
+		}
+		stalled := idle && time.Since(idleSince) > grace
+		late := time.Now().After(deadline)
+		if !pending || stalled || late {
+			q.Close()
+			names, pending = spool()
+			if len(names) == 0 {
+				removed = true
+				break
+			}
+			tgt.mu.Lock()
+			holds2, attempt2 := tgt.holds, tgt.attempt
+			tgt.mu.Unlock()
+			if !pending || late || attempt2 == attempt {
+				if stalled {
+					atomic.AddInt32(&c01Stalls, 1)
+				}
+				break // nobody is going to deliver this
+			}
+			// an attempt was being dispatched after all (a very slow machine) and the stopped time
+			// wheel has dropped its retry: an instance on the same spool picks it up
+			if holds2 > handled {
+				handled = holds2
+				q = restart(ext.restarts[attempt2])
+			} else {
+				out.Stat("run.unplanned-restart")
+				q = newQ(false)
+			}
+			idleSince = time.Time{}
+			continue
 		}
 		time.Sleep(300 * time.Microsecond)
 	}
@@ -472,11 +729,7 @@ func c01Run(out *vh.Out, op string, seed uint64) {
 	if removed {
 		trace = append(trace, "removed")
 	} else {
-		ents, _ := os.ReadDir(dir)
-		var names []string
-		for _, e := range ents {
-			names = append(names, e.Name())
-		}
+		names, _ := spool()
 		trace = append(trace, "NOT-REMOVED("+strings.Join(names, ",")+")")
 	}
 	out.Corr(op, strings.Join(trace, " "))
@@ -549,6 +802,71 @@ func c01Run(out *vh.Out, op string, seed uint64) {
 	if c01HasSpellings(addrOf) {
 		out.Stat("run.spellings")
 	}
+	// restarts that took place, by position; what the first attempt after one had to deal with
+	failedIn := func(k int) bool {
+		if k >= len(plans) {
+			return false
+		}
+		p := plans[k]
+		if p.start != 'o' || p.body != 'o' || p.commit != 'o' {
+			return true
+		}
+		for _, r := range rcpts {
+			if p.rcpt[r] != 'o' || p.bodyRc[r] != 'o' {
+				return true
+			}
+		}
+		return false
+	}
+	for k, n := range ext.restarts {
+		if k >= attempts {
+			continue
+		}
+		pos := "between-attempts"
+		if k == 0 {
+			pos = "before-first-attempt"
+		}
+		out.Stat("run.restart." + pos)
+		if failedIn(k) {
+			out.Stat("run.restart." + pos + ".then-failure")
+		}
+		if n > 1 {
+			out.Stat("run.restart.twice")
+		}
+	}
+	if len(toks) > 8 {
+		out.Stat(fmt.Sprintf("run.env.utf8-%v.sender-%c", ext.utf8, ext.sender))
+		reported := 0
+		for _, n := range reports {
+			reported += n
+		}
+		asciiRest := address.IsASCII(from)
+		for _, a := range addrs {
+			asciiRest = asciiRest && address.IsASCII(a)
+		}
+		for pos, f := range ext.orig {
+			if f == '-' {
+				continue
+			}
+			out.Stat(fmt.Sprintf("run.orig.%c", f))
+			if reports[strconv.Itoa(rcpts[pos])] > 0 {
+				out.Stat(fmt.Sprintf("run.orig.%c.reported", f))
+				if ext.utf8 && asciiRest && !address.IsASCII(c01OrigAddr(byte(f), rcpts[pos])) {
+					// the only non-ASCII thing in the report is the address the client named
+					out.Stat("run.report.utf8-only-for-original-recipient")
+				}
+			}
+		}
+		if reported > 0 && !ext.utf8 {
+			out.Stat("run.report.without-smtputf8")
+		}
+	}
+}
+
+func c01WheelEmpty(q *Queue) bool {
+	q.wheel.slotsLock.Lock()
+	defer q.wheel.slotsLock.Unlock()
+	return q.wheel.slots.Len() == 0
 }
 
 // c01CheckRetries: a recipient that appears in attempt k+1 must have ended attempt k with a
@@ -714,6 +1032,24 @@ func TestVerifC01(t *testing.T) {
 			}
 			nr = len(rc)
 		}
+		// every 8th case each: a history with restarts whose next attempt fails for somebody (mode 3);
+		// a failure report whose only non-ASCII part is the address the client named (mode 6)
+		mode := i % 8
+		asciiLocal := false // every recipient has an ASCII local part
+		if mode == 6 || (mode != 3 && !spellings && r.Chance(25)) {
+			// ASCII recipients (the A-label spellings of the IDN mailboxes included), or at least ASCII local parts
+			pool := []int{3, 4, 9, 10, 15, 16, 21, 22, 1, 13, 18}
+			if mode != 6 && r.Chance(50) {
+				pool = []int{1, 7, 13, 19, 3, 9, 4, 16, 6, 12, 18, 24}
+			}
+			for j := range pool {
+				k := j + r.Intn(len(pool)-j)
+				pool[j], pool[k] = pool[k], pool[j]
+			}
+			nr = 1 + r.Intn(3)
+			rc = pool[:nr]
+			asciiLocal = true
+		}
 		var rs []string
 		for _, x := range rc {
 			rs = append(rs, strconv.Itoa(x))
@@ -723,16 +1059,92 @@ func TestVerifC01(t *testing.T) {
 		if spellings {
 			faulty = []int{30, 50}[r.Intn(2)] // different outcomes for the spellings of one mailbox
 		}
+		if mode == 3 || mode == 6 {
+			faulty = []int{30, 60, 90}[r.Intn(3)]
+		}
 		var plans []string
 		for a := 0; a < maxTries; a++ {
 			plans = append(plans, c01GenPlan(r, nr, faulty))
 		}
 		kind := r.Pick("a", "p")
 		dsn := "1"
-		if r.Chance(15) {
+		if r.Chance(15) && mode != 6 {
 			dsn = "0"
 		}
-		op := fmt.Sprintf("C01 run %d %s %s %s %s", maxTries, kind, dsn, strings.Join(rs, ","), strings.Join(plans, ";"))
+		// restarts
+		ext := ""
+		if mode == 3 || r.Chance(20) {
+			var ks []string
+			for k := 0; k < maxTries; k++ {
+				pr := 35
+				if k == 0 {
+					pr = 60
+				}
+				if r.Chance(pr) {
+					ks = append(ks, strconv.Itoa(k))
+					if r.Chance(10) {
+						ks = append(ks, strconv.Itoa(k))
+					}
+				}
+			}
+			if len(ks) == 0 {
+				ks = []string{"0"}
+			}
+			ext = " R=" + strings.Join(ks, ".")
+			if mode == 3 {
+				// somebody fails in the first attempt after the first restart
+				k0, _ := strconv.Atoi(ks[0])
+				f := strings.Split(plans[k0], "/")
+				if !strings.ContainsAny(plans[k0], "tpu") {
+					f[1] = string("tpu"[r.Intn(3)]) + f[1][1:]
+					plans[k0] = strings.Join(f, "/")
+				}
+			}
+		}
+		// envelope: SMTPUTF8 or not, shape of the return path, addresses the client named
+		if mode == 6 || asciiLocal || r.Chance(20) {
+			utf8 := "1"
+			if asciiLocal && mode != 6 && r.Chance(50) {
+				utf8 = "0"
+			}
+			shapes := "aanimj"
+			if utf8 == "0" {
+				shapes = "aaij"
+			}
+			sender := shapes[r.Intn(len(shapes))]
+			orig := make([]byte, nr)
+			for j := range orig {
+				orig[j] = '-'
+				if r.Chance(60) {
+					orig[j] = shapes[r.Intn(len(shapes))]
+				}
+			}
+			if mode == 6 {
+				// everything but one named address is ASCII; the recipient named by it fails for good in
+				// the first attempt, alone or with others
+				sender = 'a'
+				for j := range orig {
+					orig[j] = "-a"[r.Intn(2)]
+				}
+				j := r.Intn(nr)
+				orig[j] = "nnmi"[(i/8)%4]
+				f := strings.Split(plans[0], "/")
+				if r.Chance(50) {
+					f[0] = "o"
+					rcs := []byte(f[1])
+					rcs[j] = 'p'
+					f[1] = string(rcs)
+				} else {
+					f[0] = "p"
+				}
+				plans[0] = strings.Join(f, "/")
+			}
+			if ext == "" {
+				ext = " R=-"
+			}
+			ext += " E=" + utf8 + string(sender) + string(orig)
+		}
+		op := fmt.Sprintf("C01 run %d %s %s %s %s%s", maxTries, kind, dsn, strings.Join(rs, ","), strings.Join(plans, ";"), ext)
 		jobs <- job{op, r.Next()}
 	}
 	close(jobs)
